@@ -5,6 +5,11 @@ package c16
 
 import (
 	"bytes"
+	"crypto/hmac"
+	"crypto/md5"
+	"crypto/sha1"
+	"crypto/sha256"
+	"hash"
 	"fmt"
 	"strings"
 	"testing"
@@ -23,7 +28,7 @@ var R = hx.NewRecorder("C16", "cases = histories (rapid state machine) of up to 
 	"oracle = model of what must / must not / may resume; DidResume equal on both ends; a resumed GMSSL connection must decode under the ORIGINAL master secret with the new randoms (independent passive decoder), keep version, suite and peer certificates; a non-resumed one must be a full handshake; data round trip after every connection; non-trivial = a connection that offered a ticket; distinct by hash of the history")
 
 func TestMain(m *testing.M) {
-	R.Require("resumed_gm", "resumed_tls12", "rotated_old_key_accepted", "rotated_dropped", "tampered", "evicted", "policy_now_forbids_certs", "policy_now_requires_certs", "tickets_disabled", "server_switched", "suite_removed", "must_resume", "must_not_resume")
+	R.Require("version_changed", "ticket_opened", "ekm_reference", "original_master_proved", "resumed_gm", "resumed_tls", "rotated_old_key_accepted", "rotated_dropped", "tampered", "evicted", "policy_now_forbids_certs", "policy_now_requires_certs", "tickets_disabled", "server_switched", "suite_removed", "must_resume", "must_not_resume")
 	hx.Main(m, R)
 }
 
@@ -32,6 +37,7 @@ type srvState struct {
 	disabled   bool
 	suites     []uint16 // nil = default
 	clientAuth gmtls.ClientAuthType
+	maxVers    uint16 // TLS mode only
 }
 
 type sessModel struct {
@@ -120,8 +126,8 @@ func TestC16_Histories(t *testing.T) {
 		cache := gmtls.NewLRUClientSessionCache(cacheCap)
 		model := &lruModel{cap: cacheCap, m: map[string]*sessModel{}}
 		srv := []*srvState{
-			{keys: [][32]byte{keyN(1)}, suites: suiteChoices},
-			{keys: [][32]byte{keyN(100)}, suites: suiteChoices},
+			{keys: [][32]byte{keyN(1)}, suites: suiteChoices, maxVers: 0x0303},
+			{keys: [][32]byte{keyN(100)}, suites: suiteChoices, maxVers: 0x0303},
 		}
 		if gen.OneIn(t, "defaultsuites", 4) {
 			srv[0].suites = nil
@@ -147,7 +153,8 @@ func TestC16_Histories(t *testing.T) {
 				}
 			} else {
 				cc, sc = tlsx.TLSClient(p, "c"+id), tlsx.TLSServer(p, p.RSASrv, "s"+id)
-				cc.MinVersion, cc.MaxVersion = 0x0303, 0x0303
+				cc.MinVersion, cc.MaxVersion = 0x0301, 0x0303
+				sc.MinVersion, sc.MaxVersion = 0x0301, s.maxVers
 			}
 			cc.ServerName = ""
 			cc.InsecureSkipVerify = true // the cache is keyed by address; identity checks are C08's subject
@@ -176,6 +183,8 @@ func TestC16_Histories(t *testing.T) {
 				verdict, why = "must_not", "tickets disabled"
 			case cached.server != si:
 				verdict, why = "must_not", "ticket issued by another server"
+			case !gm && cached.vers != s.maxVers:
+				verdict, why = "must_not", "session is for another protocol version"
 			case !hasKey(s.keys, cached.key):
 				verdict, why = "must_not", "issuing key no longer configured"
 			case s.suites != nil && !contains(s.suites, cached.suite):
@@ -192,6 +201,9 @@ func TestC16_Histories(t *testing.T) {
 			// a client without a certificate cannot satisfy a requiring policy: the connection itself must fail
 			needCert := s.clientAuth == gmtls.RequireAnyClientCert || s.clientAuth == gmtls.RequireAndVerifyClientCert
 			expectFail := needCert && !withClientCert && verdict != "must"
+			if !gm && s.maxVers < 0x0303 && s.suites != nil && !contains(s.suites, 0xc014) {
+				expectFail = true // no configured suite is usable below TLS 1.2
+			}
 			payloadC, payloadS := []byte("from client "+id), []byte("from server "+id)
 			r := tlsx.Run(cc, sc, tlsx.Script{ClientSend: payloadC, ServerSend: payloadS, ServerAddr: name, ClientAddr: "client:" + id})
 			desc := fmt.Sprintf("history %v\n connection %d: server %d name %s gm=%v | model: %s (%s) | %s", hist, conns, si, name, gm, verdict, why, r.Describe())
@@ -202,7 +214,7 @@ func TestC16_Histories(t *testing.T) {
 			cok, sok := r.Client.HSErr == nil, r.Server.HSErr == nil
 			if expectFail {
 				if cok && sok {
-					t.Fatalf("connection completed although the server requires a client certificate the client does not have\n%s", desc)
+					t.Fatalf("connection completed although the configurations admit no full handshake and the session may not be resumed\n%s", desc)
 				}
 				if cached != nil && strings.HasPrefix(why, "policy now requires") {
 					offered++
@@ -237,6 +249,8 @@ func TestC16_Histories(t *testing.T) {
 					classes["server_switched"] = true
 				case "issuing key no longer configured":
 					classes["rotated_dropped"] = true
+				case "session is for another protocol version":
+					classes["version_changed"] = true
 				case "suite no longer supported by the server":
 					classes["suite_removed"] = true
 				}
@@ -270,6 +284,65 @@ func TestC16_Histories(t *testing.T) {
 					t.Fatalf("independent decoder recovers different application data\n%s", desc)
 				}
 			}
+			// the master secret of this connection, as sealed by the server into the ticket it issued on it
+			// (opened with the server's own keys through the hook), and the exporter computed from it by a
+			// reference PRF over the randoms seen on the wire
+			cr, sr, issuedTicket := plainFlight(r.Log)
+			var connMaster []byte
+			if issuedTicket != nil {
+				kc := &gmtls.Config{}
+				kc.SetSessionTicketKeys(s.keys)
+				ok, tv, ts, tm, old := gmtls.VerifDecryptTicket(kc, issuedTicket)
+				if !ok || old {
+					t.Fatalf("the ticket issued on this connection does not open under the server's primary key (ok=%v old=%v)\n%s", ok, old, desc)
+				}
+				if tv != cs.Version || ts != cs.CipherSuite {
+					t.Fatalf("issued ticket records version/suite %x/%x, connection has %x/%x\n%s", tv, ts, cs.Version, cs.CipherSuite, desc)
+				}
+				connMaster = tm
+				classes["ticket_opened"] = true
+			}
+			if d != nil {
+				if connMaster != nil && !bytes.Equal(connMaster, d.Master) {
+					t.Fatalf("issued ticket seals another master secret than the one the connection uses\n%s", desc)
+				}
+				connMaster = d.Master
+			}
+			if connMaster == nil && cs.DidResume && cached.master != nil {
+				// no ticket re-issued (TLS mode, same primary key): the exporter check below then decides whether the
+				// connection runs under the original master secret
+				connMaster = cached.master
+			}
+			ekmC, e1 := cs.ExportKeyingMaterial("EXPERIMENTAL c16", []byte(id), 32)
+			ekmS, e2 := ss.ExportKeyingMaterial("EXPERIMENTAL c16", []byte(id), 32)
+			if e1 != nil || e2 != nil || !bytes.Equal(ekmC, ekmS) {
+				t.Fatalf("exported keying material differs between the ends (resumed=%v): %v %v\n%s", cs.DidResume, e1, e2, desc)
+			}
+			if connMaster != nil && len(cr) == 32 && len(sr) == 32 {
+				seed := append(append(append([]byte{}, cr...), sr...), byte(0), byte(len(id)))
+				seed = append(seed, id...)
+				var want []byte
+				if gm {
+					want = rgmssl.PRF(connMaster, "EXPERIMENTAL c16", seed, 32)
+				} else if cs.Version == 0x0303 {
+					want = refPRF12(connMaster, "EXPERIMENTAL c16", seed, 32)
+				} else {
+					want = refPRF10(connMaster, "EXPERIMENTAL c16", seed, 32)
+				}
+				if !bytes.Equal(want, ekmC) {
+					t.Fatalf("exporter value is not PRF(master secret of this session, randoms of this connection) (resumed=%v)\n%s", cs.DidResume, desc)
+				}
+				classes["ekm_reference"] = true
+			}
+			if cs.DidResume && cached.master != nil {
+				if connMaster == nil {
+					t.Fatalf("harness: master secret of a resumed connection not observable\n%s", desc)
+				}
+				if !bytes.Equal(connMaster, cached.master) {
+					t.Fatalf("the resumed connection does not run under the ORIGINAL master secret\n%s", desc)
+				}
+				classes["original_master_proved"] = true
+			}
 			if cs.DidResume {
 				if cs.CipherSuite != cached.suite || cs.Version != cached.vers || ss.CipherSuite != cached.suite {
 					t.Fatalf("resumed session changed parameters: now %x/%x, originally %x/%x\n%s", cs.Version, cs.CipherSuite, cached.vers, cached.suite, desc)
@@ -288,7 +361,7 @@ func TestC16_Histories(t *testing.T) {
 				if gm {
 					classes["resumed_gm"] = true
 				} else {
-					classes["resumed_tls12"] = true
+					classes["resumed_tls"] = true
 				}
 				if cached.key != s.keys[0] {
 					classes["rotated_old_key_accepted"] = true
@@ -304,9 +377,7 @@ func TestC16_Histories(t *testing.T) {
 				}
 				if !s.disabled {
 					nm := &sessModel{suite: cs.CipherSuite, vers: cs.Version, server: si, key: s.keys[0], hadClientCert: len(ss.PeerCertificates) > 0}
-					if d != nil {
-						nm.master = d.Master
-					}
+					nm.master = connMaster
 					for _, c := range cs.PeerCertificates {
 						nm.srvCerts = append(nm.srvCerts, c.Raw)
 					}
@@ -339,7 +410,12 @@ func TestC16_Histories(t *testing.T) {
 				cs := model.m[name]
 				s := srv[cs.server]
 				si := cs.server
-				switch k := rapid.SampledFrom([]string{"rotate_keep", "rotate_drop", "disable", "remove_suite", "auth_conflict", "auth_compatible", "other_server"}).Draw(t, "change"); k {
+				switch k := rapid.SampledFrom([]string{"version", "rotate_keep", "rotate_drop", "disable", "remove_suite", "auth_conflict", "auth_compatible", "other_server"}).Draw(t, "change"); k {
+				case "version":
+					if gm {
+						t.Skip("GMSSL has one version")
+					}
+					s.maxVers = rapid.SampledFrom([]uint16{0x0301, 0x0302, 0x0303}).Draw(t, "maxVers")
 				case "rotate_keep":
 					s.keys = append([][32]byte{keyN(nextKey)}, s.keys...)
 					nextKey++
@@ -411,6 +487,92 @@ func TestC16_Histories(t *testing.T) {
 		R.Case(offered > 0, hx.HashKey(fmt.Sprint(hist), gm, cacheCap, withClientCert), cl...)
 		R.Sample("history", map[string]interface{}{"gmssl": gm, "cache": cacheCap, "ops": hist})
 	})
+}
+
+// plainFlight reassembles the unprotected records of a captured connection (everything before each side's
+// ChangeCipherSpec) and returns the client random, the server random and the last NewSessionTicket's ticket.
+func plainFlight(log []rgmssl.Chunk) (cr, sr, ticket []byte) {
+	for _, fromClient := range []bool{true, false} {
+		var stream, hs []byte
+		for _, c := range log {
+			if c.FromClient == fromClient {
+				stream = append(stream, c.Data...)
+			}
+		}
+		for len(stream) >= 5 {
+			n := int(stream[3])<<8 | int(stream[4])
+			if len(stream) < 5+n || stream[0] == 20 {
+				break
+			}
+			if stream[0] == 22 {
+				hs = append(hs, stream[5:5+n]...)
+			}
+			stream = stream[5+n:]
+		}
+		for len(hs) >= 4 {
+			n := int(hs[1])<<16 | int(hs[2])<<8 | int(hs[3])
+			if len(hs) < 4+n {
+				break
+			}
+			body := hs[4 : 4+n]
+			switch {
+			case hs[0] == 1 && fromClient && n >= 34:
+				cr = body[2:34]
+			case hs[0] == 2 && !fromClient && n >= 34:
+				sr = body[2:34]
+			case hs[0] == 4 && !fromClient && n >= 6:
+				ticket = body[6:]
+			}
+			hs = hs[4+n:]
+		}
+	}
+	return
+}
+
+// refPRF12 is the TLS 1.2 PRF with SHA-256 (RFC 5246 section 5), written from the RFC.
+func refPRF12(secret []byte, label string, seed []byte, n int) []byte {
+	ls := append([]byte(label), seed...)
+	h := func(parts ...[]byte) []byte {
+		m := hmac.New(sha256.New, secret)
+		for _, p := range parts {
+			m.Write(p)
+		}
+		return m.Sum(nil)
+	}
+	a := h(ls)
+	var out []byte
+	for len(out) < n {
+		out = append(out, h(a, ls)...)
+		a = h(a)
+	}
+	return out[:n]
+}
+
+// refPRF10 is the TLS 1.0/1.1 PRF (RFC 2246 section 5): P_MD5(S1) xor P_SHA-1(S2).
+func refPRF10(secret []byte, label string, seed []byte, n int) []byte {
+	ls := append([]byte(label), seed...)
+	half := (len(secret) + 1) / 2
+	pHash := func(newH func() hash.Hash, key []byte) []byte {
+		h := func(parts ...[]byte) []byte {
+			m := hmac.New(newH, key)
+			for _, p := range parts {
+				m.Write(p)
+			}
+			return m.Sum(nil)
+		}
+		a := h(ls)
+		var out []byte
+		for len(out) < n {
+			out = append(out, h(a, ls)...)
+			a = h(a)
+		}
+		return out[:n]
+	}
+	x, y := pHash(md5.New, secret[:half]), pHash(sha1.New, secret[len(secret)-half:])
+	for i := range x {
+		x[i] ^= y[i]
+	}
+	return x
 }
 
 func hasKey(keys [][32]byte, k [32]byte) bool {
